@@ -10,6 +10,8 @@ MODEL = ["independent byte-per-entry GF(2) reference model (harness/ref.c) and r
          "judge and sharding in verif.py"]
 
 PROPS = {}
+HOOK_COMMITS = []
+NOT_APPLICABLE = []
 
 PROPS["C01"] = dict(
     level="exploration",
@@ -24,4 +26,107 @@ PROPS["C01"] = dict(
         S("small-gomp-asan", "func", ["--fam", "mul"], (600, 400), (20000, 1300), env={"OMP_NUM_THREADS": "3"}),
     ],
     require_tags={"quick": ["strassen_depth=2", "cubic", "m4rm", "squaring"], "thorough": ["strassen_depth=3", "cubic", "m4rm", "squaring"]},
+)
+
+def FUNC(fam, q_small, t_small, q_host=None, t_host=None, q_ts=None, t_ts=None, extra=None):
+    st = [S("small-asan", "func", ["--fam", fam], q_small, t_small)]
+    if q_host:
+        st.append(S("host-asan", "func", ["--fam", fam], q_host, t_host))
+    if q_ts:
+        st.append(S("small-nosse-ts-asan", "func", ["--fam", fam], q_ts, t_ts))
+    if extra:
+        st.extend(extra)
+    return st
+
+PROPS["C02"] = dict(
+    level="exploration",
+    rule="case = (route, m,n, prescribed rank profile or pattern, full, k, heuristic, threshold); rank compared with the model, full=1: result == unique RREF, "
+         "full=0: echelon shape + same row space; top-reduction of a directly generated row echelon form == RREF; distinct = (build, route, full, k, "
+         "heuristic, shape class, input kind); non-trivial = rank > 0 and profile != (0,1,2,..)",
+    assumptions=MODEL,
+    stages=FUNC("ech", (2800, 300), (50000, 1000), (700, 400), (15000, 1500), (700, 250), (15000, 800)),
+)
+PROPS["C03"] = dict(
+    level="exploration",
+    rule="case = (route, m,n, rank profile/pattern, cutoff, k, junk-or-identity P,Q on entry); oracle: r == model rank, i<=P[i]<m, i<=Q[i]<n, Q[0..r) == column "
+         "rank profile, storage outside L/U zero, P*L*U*Q (P*L*E) == A reconstructed in the model; distinct = (build, route, base/recursive, k, shape class, "
+         "input kind); non-trivial = 0 < r < min(m,n) or gapped profile",
+    assumptions=MODEL + ["PLE storage is read the way mzd_echelonize_pluq reads it (row i: columns <= i cleared, column Q[i] set); stored diagonals are not read"],
+    stages=FUNC("ple", (2400, 300), (40000, 1100), (600, 400), (10000, 1500), (600, 250), (10000, 800)),
+    require_tags={"quick": ["ple_recursive"], "thorough": ["ple_recursive"]},
+)
+PROPS["C04"] = dict(
+    level="exploration",
+    rule="case = (variant, n, width, T with junk in the unused triangle, B pattern, cutoff); oracle: That*X == B0 (left) / X*That == B0 (right) with That the named "
+         "unit triangle, T bit-identical afterwards; distinct = (build, variant, regime base/russian/recursive, shape class, B pattern); non-trivial = n>1, That != I, B != 0",
+    assumptions=MODEL,
+    stages=FUNC("trsm", (2400, 330), (40000, 900), (500, 400), (10000, 2100), (600, 300), (10000, 700)),
+    require_tags={"quick": ["trsm_base", "trsm_russian", "trsm_recursive"], "thorough": ["trsm_base", "trsm_russian", "trsm_recursive"]},
+)
+PROPS["C05"] = dict(
+    level="exploration",
+    rule="case = (route, n, invertible A = P*L*U or unit upper triangular U, k, destination NULL/dirty); oracle: A*B == B*A == I in the model, A unchanged; "
+         "trtri: result unit upper triangular and U0*result == I; distinct = (build, route, k, size class, regime); non-trivial = n > 1",
+    assumptions=MODEL,
+    stages=FUNC("inv", (1500, 400), (20000, 900), (300, 300), (5000, 1200), (300, 200), (5000, 600)),
+    require_tags={"quick": ["trtri_recursive"], "thorough": ["trtri_recursive"]},
+)
+PROPS["C06"] = dict(
+    level="exploration",
+    rule="case = (route, m,n,w, A by rank profile/pattern, right-hand side: consistent A*X0 | + vector outside the column space (from a left-kernel vector) in one "
+         "column | a single one in a padding row (first/second/last)); oracle: verdict == (rank[Ah] == rank[Ah|B]) with Ah = A padded to max(m,n) rows, and A*X == B "
+         "when 0; distinct = (build, route, rhs kind, m<n/m=n/m>n, size classes, input kind); non-trivial = A rank deficient or verdict -1",
+    assumptions=MODEL,
+    stages=FUNC("solve", (2000, 220), (40000, 700), (400, 300), (8000, 1200), (400, 200), (8000, 500)),
+    require_tags={"quick": ["rhs_padrow-first", "rhs_outside-colspace", "verdict_inconsistent", "verdict_solvable"],
+                  "thorough": ["rhs_padrow-first", "rhs_outside-colspace", "verdict_inconsistent", "verdict_solvable"]},
+)
+PROPS["C07"] = dict(
+    level="exploration",
+    rule="case = (m,n, A by rank profile/pattern, cutoff); oracle: NULL iff model rank == n, else n x (n-r), A0*K == 0, rank(K) == n-r; distinct = (build, shape "
+         "class, input kind); non-trivial = 0 < r < n",
+    assumptions=MODEL,
+    stages=FUNC("kernel", (1500, 300), (30000, 900), (300, 400), (6000, 1300), (300, 200), (6000, 600)),
+    require_tags={"quick": ["kernel_trivial", "kernel_proper"], "thorough": ["kernel_trivial", "kernel_proper", "kernel_all"]},
+)
+PROPS["C13"] = dict(
+    level="exploration",
+    rule="case = (primitive, shape, indices (word-boundary biased), row ranges incl. empty, LAPACK permutation (identity/single/random/all-last, full or shorter)); "
+         "oracle: explicit model of each primitive; relations left==right permutation matrix and X then X_trans restores; distinct = (build, primitive, parameter class, "
+         "shape class); non-trivial = result differs from input",
+    assumptions=MODEL + ["mzd_apply_p_right_even_capped is only exercised with start_col = 0 (its start_col semantics for the non-transposed variant are not stated)",
+                         "mzd_and_bits is not exercised (not named by the property)"],
+    stages=FUNC("rowcol", (6000, 330), (200000, 700), (1500, 330), (40000, 1500), (1500, 200), (40000, 500)),
+)
+PROPS["C17"] = dict(
+    level="exploration",
+    rule="case = (observer, shape, content: pairs differing in exactly one bit at a position class first/middle/last word/last row, chains for cmp, single-bit and "
+         "zero-tail matrices, pivot search starts incl. last word/last 64 columns); oracle: model predicates; distinct = (build, observer, content class, shape class); "
+         "non-trivial = inputs differ in exactly one bit / region's first one is placed by the generator",
+    assumptions=MODEL,
+    stages=FUNC("obs", (8000, 300), (300000, 700), (1500, 300), (40000, 1200), (1500, 200), (40000, 400)),
+)
+PROPS["C08"] = dict(
+    level="exploration",
+    rule="case = (operation, shape, pattern dense/ones/single/..., destination NULL/dirty/aliased); oracle: entry-wise model; transpose twice == original; "
+         "distinct = (build, operation, kernel/width/path class, shape residues, pattern, destination kind); non-trivial = matrix != 0 and shape != 1x1",
+    assumptions=MODEL,
+    stages=FUNC("move", (6000, 200), (150000, 900), (1200, 800), (30000, 2100), (1200, 150), (30000, 600)),
+    require_tags={"quick": ["transpose_le8", "transpose_le16", "transpose_le32", "transpose_lt64", "transpose_block", "transpose_split64", "transpose_split512",
+                            "submatrix_aligned", "submatrix_unaligned"],
+                  "thorough": ["transpose_le8", "transpose_split512", "submatrix_unaligned"]},
+)
+
+PROPS["C09"] = dict(
+    level="exploration",
+    rule="case = (operation, operand values, per-operand placement: owned / window at even word / window at odd word, row offset 0 or not, view width mod 64, parent "
+         "ending with the view, inside its last word, or wider; random or zero surround); oracles: model result, bit-exact snapshot of every parent allocation "
+         "outside the view, read-only operands unchanged, same outputs as the call on standalone copies, same outputs under another placement and surround; "
+         "distinct = (build, operation, placement tuple, parameter class); non-trivial = at least one operand is a window with non-zero random surround",
+    assumptions=MODEL + ["parents' own padding bits are kept zero (the library may assume that)", "djb_apply_mzd is not exercised on windows (low-level interface)"],
+    stages=[
+        S("small-asan", "views", [], (9000, 200), (160000, 500)),
+        S("small-nosse-ts-asan", "views", [], (2500, 150), (40000, 400)),
+        S("host-asan", "views", [], (1500, 300), (30000, 1200)),
+    ],
 )
